@@ -139,6 +139,38 @@ def r2(ctx):
             ctx.bad(f'{cname}.__setattr__', 'override', '__setattr__ override bypasses the descriptor argument', c.path)
 
 
+def _restores_slot(fn, st):
+    """`X.__dict__[K] = v` where every definition of the local v in fn is `X.__dict__[K]` (same X, K, as written) and
+    neither X nor K is rebound in fn: the store puts back what the slot held."""
+    if len(st.targets) != 1 or not isinstance(st.value, ast.Name):
+        return False
+    slot = norm(st.targets[0])
+    used = {x.id for x in ast.walk(st.targets[0]) if isinstance(x, ast.Name)}
+    defs = []
+    for x in ast.walk(fn):
+        tg = []
+        if isinstance(x, ast.Assign):
+            tg = x.targets
+        elif isinstance(x, (ast.AugAssign, ast.AnnAssign, ast.For, ast.NamedExpr)):
+            tg = [x.target]
+        elif isinstance(x, (ast.With,)):
+            tg = [i.optional_vars for i in x.items if i.optional_vars is not None]
+        elif isinstance(x, ast.ExceptHandler) and x.name:
+            if x.name in used | {st.value.id}:
+                return False
+        for t in tg:
+            for nm in ast.walk(t):
+                if isinstance(nm, ast.Name) and isinstance(nm.ctx, ast.Store):
+                    if nm.id in used:
+                        return False
+                    if nm.id == st.value.id:
+                        if not (isinstance(x, ast.Assign) and len(x.targets) == 1 and isinstance(t, ast.Name)
+                                and norm(x.value) == slot):
+                            return False
+                        defs.append(x)
+    return bool(defs)
+
+
 def r3(ctx):
     m = ctx.model
     n = 0
@@ -162,6 +194,9 @@ def r3(ctx):
                 n += 1
                 if fi.path.endswith('core/attributes.py') and fi.cls and fi.name == '__set__':
                     ctx.ok(f'{fi.cls}.{fi.name}', 'the descriptor is the single raw writer')
+                elif isinstance(node, ast.Assign) and _restores_slot(fi.node, node):
+                    ctx.ok(f'{fi.cls}.{fi.name}', f'`{bad[:60]}` puts back the value read from the same slot '
+                           '(roll-back of a rejected assignment): a value the validators had accepted')
                 else:
                     ctx.bad(fi.qualname.split(':')[1], f'raw-store:{bad[:60]}',
                             f'`{bad}` writes an attribute behind the validating descriptors', fi.loc(node))
@@ -293,8 +328,13 @@ def _ctor_raises(ctx, ci):
         if v_ is not None:
             ev.hooks[v_.qualname] = lambda e, a, k: Const(None)
     ev.descriptor_sets = True
-    out = ev.run(init, [Obj(ci.name, {}, None, ci)] + args, {})
+    self_ = Obj(ci.name, {}, None, ci)
+    out = ev.run(init, [self_] + args, {})
+    _CTOR_FIELDS[ci.name] = [k for k in self_.fields if not k.startswith('__')]
     return ev, ps, out.raises
+
+
+_CTOR_FIELDS = {}
 
 
 def _assign_raises(ctx, ci, fld, validators_on):
@@ -310,7 +350,13 @@ def _assign_raises(ctx, ci, fld, validators_on):
     ev.descriptor_sets = True
     node = ast.parse(f'def _assign(obj, new):\n    obj.{fld} = new\n').body[0]
     fi = FuncInfo('_assign', f'{ci.module}:_assign', ci.module, None, node, ci.path)
-    inst = Obj(ci.name, {p_: sym('cur_' + p_, positive=True) for p_ in m.params_of(ci)}, None, ci)
+    # a complete instance: the parameters hold (symbolic, valid) values, and so does every other attribute the
+    # constructor stores (a __setattr__ may ask whether construction is over)
+    if ci.name not in _CTOR_FIELDS:
+        _ctor_raises(ctx, ci)
+    names = list(m.params_of(ci)) + [k for k in _CTOR_FIELDS.get(ci.name, []) if k not in m.params_of(ci)
+                                     and k not in ('meta', 'visual')]
+    inst = Obj(ci.name, {p_: sym('cur_' + p_, positive=True) for p_ in names}, None, ci)
     out = ev.run(fi, [inst, sym('NEW_' + fld, positive=True)], {})
     return ev, out.raises
 
